@@ -39,6 +39,8 @@ def gen_template(rng, i):
     n = rng.randint(1, 6)
     for _ in range(n):
         r = rng.random()
+        if rng.random() < 0.12:
+            r = rng.choice([0.405, 0.42, 0.432, 0.436, 0.439])       # the narrow special families below, each with a real share
         if r < 0.15:
             # scalar initialiser with a parameter
             nm = g.fresh()
@@ -101,6 +103,17 @@ def gen_template(rng, i):
             for _ in range(rng.randint(1, 3)):
                 lines.append(rng.choice(["Interferometer(-%s) | [0, 1]" % nB, "Interferometer(%s + %s) | [0, 1]" % (nA, nB), "Ggate(%s * %s) | [0, 1]" % (nA, nC),
                                          "Kgate(U=%s - %s) | 1" % (nB, nC), "Ggate(2 * %s, V=-%s) | 0" % (nA, nA)]))
+        elif r < 0.438:
+            # a whole-array parameter whose VALUE is a nested list of Python integers (some large): element arithmetic is the
+            # arithmetic of the substituted text (true division, no fixed-width wrap-around, negative integer powers)
+            nm = g.fresh("WI")
+            p = g.fresh("Mint")
+            s_ = g.fresh("nneg")
+            arrays[p] = (1, 2)
+            g.params.append(s_)
+            lines.append("float array %s[1, 2] =\n    {%s}" % (nm, p))
+            lines.append("Sgate(%s[0] * %s[1]) | 0" % (nm, nm))
+            lines.append(rng.choice(["Rgate(%s[0] ** {%s}) | 1", "Dgate(%s[1] / 3, 2 ** {%s}) | 1"]) % (nm, s_))
         elif r < 0.44:
             # parameter expressions that fold to a constant while parsing: {p}*0, {p}**0, {p}-{p}; with a loop variable
             # that takes the value 0 the folding happens in one iteration only
@@ -130,8 +143,14 @@ def values_for(rng, names, arrays):
         if p.startswith("nint"):
             sg[p] = rng.randint(1, 9)
             continue
+        if p.startswith("nneg"):
+            sg[p] = rng.choice([-2, -1, -3])
+            continue
         sg[p] = rng.choice([round(rng.uniform(0.1, 3.0), rng.randint(1, 6)), rng.randint(1, 9), -round(rng.uniform(0.1, 3.0), 3)])
     for p, (r, c) in arrays.items():
+        if p.startswith("Mint"):
+            sg[p] = [[rng.choice([3, 7, 12, 40000, 2 ** 20]) for _ in range(c)] for _ in range(r)]      # products stay far inside int64
+            continue
         sg[p] = [[round(rng.uniform(0.1, 3.0), 3) if rng.random() < 0.7 else rng.randint(1, 9) for _ in range(c)] for _ in range(r)]
     return sg
 
@@ -242,7 +261,7 @@ def check_case(res, model, impl, text, names, arrays, sg, stats):
     before = impl.blackbird.dumps(t) if False else None
     sg_call = dict(sg)
     for k_, v_ in sg.items():
-        if isinstance(v_, list) and zlib.crc32(repr(v_).encode()) % 2 == 0:
+        if isinstance(v_, list) and zlib.crc32(repr(v_).encode()) % 2 == 0 and not k_.startswith("Mint"):      # (Mint*: nested lists of Python integers, kept as they are)
             # the same 2-D value as a NumPy array that is not in C memory order (transposed view / Fortran order / reversed rows of a flipped copy)
             a_ = np.array(v_)
             sg_call[k_] = [np.asfortranarray(a_), a_.T.copy().T, a_[::-1].copy()[::-1]][zlib.crc32(repr(v_).encode()) // 2 % 3]
